@@ -31,18 +31,20 @@ Unprotected == {"priority", "repeat", "hopcount", "frametype"}       \* control 
 \* everything else (message code, additional info, length, APCI, reserved / system broadcast / acknowledge / confirm bits)
 \* is structural: the statement gives no verdict on acceptance, only that nothing raises
 \* ---- (2) laws.  out: "delivered" | "discarded" | "raised";  same = 1: the delivered APDU equals the original, marked secure
+\* (a corrupted copy received before the genuine frame - pre = 1 - must not change that)
 C15Ok(c) == c.out = "delivered" /\ c.same = 1 /\ c.secure = 1 /\ c.keyissue = 0
 C16Ok(c) ==
   CASE c.mut = "bit" -> LET f == Field(c.n, c.bit) IN
                          IF f \in Protected THEN c.out = "discarded"
                          ELSE IF f \in Unprotected THEN c.out = "delivered" /\ c.same = 1
                          ELSE c.out # "raised" /\ (c.out = "delivered" => c.same = 1)
-    [] c.mut \in {"wrongkey", "truncated", "otherdst", "othersrc"} -> c.out = "discarded"
+    [] c.mut \in {"wrongkey", "truncated", "resized", "otherdst", "othersrc"} -> c.out = "discarded"
     [] OTHER -> FALSE
 C18Ok(c) ==
   CASE c.kind = "plain_in"  -> IF c.keyed = 1 THEN c.out = "discarded" /\ c.keyissue = 1 /\ c.device = 0 /\ c.cb = 0
                                 ELSE c.out = "delivered" /\ c.secure = 0
-    [] c.kind = "out"       -> c.onwire_secure = c.keyed                \* to a secured address: always secured
+    [] c.kind = "out"       -> IF c.keyed = 1 THEN c.onwire_secure \in {1, -1}     \* to a secured address: secured, or refused (-1: nothing sent)
+                                ELSE c.onwire_secure = 0
     [] c.kind = "malformed" -> c.out = "discarded"                      \* authentic, but the content cannot be used: never raises
     [] c.kind = "garbage"   -> c.out # "raised"
     [] OTHER -> FALSE
